@@ -92,7 +92,7 @@ def h_match(ctx, layout, with_gc, sym_bin=0):
     except ValueError as exc:
         raised = str(exc)
     except Exception as exc:
-        ctx.claim(False, f"load_adjust_coverages raised {type(exc).__name__}", info=str(exc)[:200])
+        claim_raised(ctx, "load_adjust_coverages", exc)
         return
     if layout in ("absent", "dup"):
         ctx.claim(raised is not None, "a sample bin absent from the reference, or duplicated coordinates, is refused")
@@ -174,7 +174,7 @@ def _h_arith(ctx, n_anti, shift=False, flat=False, case=None, bad_bin=False):
     try:
         out = run_fix(ctx, tcols, cols_of(ANTI[:n_anti], sl[nt:]), rc, var)
     except Exception as exc:
-        ctx.claim(False, f"do_fix raised {type(exc).__name__}", info=str(exc)[:200])
+        claim_raised(ctx, "do_fix", exc)
         return
     rows = {(r.chromosome, r.start, r.end): r for r in out.data.itertuples(index=False)}
     ctx.claim(len(rows) == len(bins) == len(out), "every bin whose reference bin passes the filters is emitted once")
@@ -252,7 +252,7 @@ def h_perm(ctx, n_anti, flags, perm, ties=False, case=None):
         try:
             outs.append(run_fix(ctx, cols_of(t_idx), cols_of(a_idx), rcols_of(r_idx), 0.3, flags, sort_ref=False))
         except Exception as exc:
-            ctx.claim(False, f"do_fix raised {type(exc).__name__}", info=str(exc)[:200])
+            claim_raised(ctx, "do_fix", exc)
             return
     a, b = outs
     ka = [(r.chromosome, r.start, r.end) for r in a.data.itertuples(index=False)]
@@ -287,7 +287,7 @@ def h_window(ctx, fraction, case=None):
     try:
         out = fix.center_by_window(cna, fraction, pd.Series(obj_col(key)))
     except Exception as exc:
-        ctx.claim(False, f"center_by_window raised {type(exc).__name__}", info=str(exc)[:200])
+        claim_raised(ctx, "center_by_window", exc)
         return
     got = list(out.data.itertuples(index=False))
     ctx.observe("log2", [r.log2 for r in got])
@@ -324,7 +324,7 @@ def h_edge(ctx):
     try:
         gains = fix.edge_gains(obj_col([t, t]), obj_col([g, g]), i)
     except Exception as exc:
-        ctx.claim(False, f"edge_gains raised {type(exc).__name__}", info=str(exc)[:200])
+        claim_raised(ctx, "edge_gains", exc)
         return
     g0 = Max2(g, 0)
     base = ((i - g0) * (i - g0)) / (4 * i * t)
